@@ -25,8 +25,8 @@ mut("C03", "r3-put-precheck-ignored", "database/interface.go",
     "if err != nil && !errors.Is(err, ErrNotFound) && !errors.Is(err, ErrPermissionDenied) {\n\t\t\treturn err\n\t\t}\n\t} else {\n\t\tdb, err = getController(r.DatabaseName())\n\t\tif err != nil {\n\t\t\treturn err\n\t\t}\n\t}\n\n\t// Check if database is read only.\n\tif db.ReadOnly() {\n\t\treturn ErrReadOnly\n\t}\n\n\tr.Lock()\n\ti.options.Apply(r)",
     "C03-R3|database.(*Interface).Put /")
 mut("C03", "r3-delete-bypass", "database/interface.go",
-    "\ti.updateCache(r, false, true, 0)\n\n\treturn putChanged(db, r, before)",
-    "\ti.updateCache(r, false, true, 0)\n\tif r2, err2 := db.Get(key); err2 == nil {\n\t\tr = r2\n\t}\n\treturn putChanged(db, r, before)", "C03-R3|Delete / call Controller.Put #1 / record provenance")
+    "\ti.updateCache(r, false, true, 0)\n\n\tr.Lock()\n\tdefer r.Unlock()\n\treturn putChanged(db, r, before)",
+    "\ti.updateCache(r, false, true, 0)\n\tif r2, err2 := db.Get(key); err2 == nil {\n\t\tr = r2\n\t}\n\n\tr.Lock()\n\tdefer r.Unlock()\n\treturn putChanged(db, r, before)", "C03-R3|Delete / call Controller.Put #1 / record provenance")
 mut("C03", "r3-query-swapped", "database/interface.go",
     "return db.Query(q, i.options.Local, i.options.Internal)", "return db.Query(q, i.options.Internal, i.options.Local)", "C03-R3|database.(*Interface).Query")
 mut("C03", "r3-putmany-no-check", "database/interface.go",
@@ -223,7 +223,7 @@ mut("C02", "r3-fstree-no-prefix", "database/storage/fstree/fstree.go",
 mut("C02", "r3-hashmap-no-matches", "database/storage/hashmap/map.go",
     "\t\t\t!q.MatchesRecord(record) ||\n", "", "C02-R3|hashmap.(*HashMap).queryExecutor")
 mut("C02", "r4-delete-no-evict", "database/interface.go",
-    "\t// Remove the record from the cache, it would be served from there otherwise.\n\ti.updateCache(r, false, true, 0)\n\n", "", "C02-R4|deleted record leaves the read cache", comment="reverts fix cd75049")
+    "\t// Remove the record from the cache, it would be served from there otherwise.\n\t// The record may not be locked when updating the cache.\n\ti.updateCache(r, false, true, 0)\n\n", "", "C02-R4|deleted record leaves the read cache", comment="reverts fix cd75049")
 mut("C02", "r4-ttl-absolute", "database/interface.go",
     "\tttl := r.Meta().GetRelativeExpiry()\n\tr.Unlock()\n\ti.updateCache(\n\t\tr,\n\t\tfalse, // writing", "\tttl := r.Meta().GetAbsoluteExpiry()\n\tr.Unlock()\n\ti.updateCache(\n\t\tr,\n\t\tfalse, // writing", "C02-R4|getRecord / updateCache ttl")
 mut("C02", "r4-flush-inverted", "database/interface_cache.go",
@@ -672,7 +672,7 @@ mut("C20", "r1-tracer-ignores-global-level", "log/trace.go",
 mut("C13", "r8-delete-error-dropped", "api/database.go",
     "\terr := api.db.Delete(key)\n\tif err != nil {\n\t\tapi.send(opID, dbMsgTypeError, err.Error(), nil)\n\t\treturn\n\t}\n\tapi.send(opID, dbMsgTypeSuccess", "\t_ = api.db.Delete(key)\n\tapi.send(opID, dbMsgTypeSuccess", "C13-R8|api.(*DatabaseAPI).handleDelete / error of database.Interface.Delete")
 mut("C02", "r10-delete-put-error-dropped", "database/interface.go",
-    "\ti.updateCache(r, false, true, 0)\n\n\treturn putChanged(db, r, before)", "\ti.updateCache(r, false, true, 0)\n\n\t_ = putChanged(db, r, before)\n\treturn nil", "C02-R15|database.(*Interface).Delete / error")
+    "\ti.updateCache(r, false, true, 0)\n\n\tr.Lock()\n\tdefer r.Unlock()\n\treturn putChanged(db, r, before)", "\ti.updateCache(r, false, true, 0)\n\n\tr.Lock()\n\tdefer r.Unlock()\n\t_ = putChanged(db, r, before)\n\treturn nil", "C02-R15|database.(*Interface).Delete / error")
 mut("C17", "r5-createatomic-rename-error-dropped", "utils/atomic.go",
     "\tif err := tmpFile.CloseAtomicallyReplace(); err != nil {\n\t\treturn fmt.Errorf(\"failed to rename temp file to %q\", dest)\n\t}", "\t_ = tmpFile.CloseAtomicallyReplace()", "C17-R5|utils.CreateAtomic / error of utils/renameio.PendingFile.CloseAtomicallyReplace")
 mut("C04", "r8-loadconfig-parse-error-dropped", "config/persistence.go",
@@ -1137,10 +1137,100 @@ mut("C11", "r10-two-quotes-for-short-tokens", "database/query/parser.go",
     "C11-R10|database/query.escapeString", comment="the empty-token form returned for a non-empty token")
 
 mut("C02", "r24-delete-without-record-lock", "database/interface.go",
-    "\tr.Lock()\n\tdefer r.Unlock()\n\n\tbefore := *r.Meta()\n\ti.options.Apply(r)\n\tr.Meta().Delete()\n", "\tbefore := *r.Meta()\n\ti.options.Apply(r)\n\tr.Meta().Delete()\n",
-    "C02-R24|database.(*Interface).Delete", comment="reverts fix a9dfa07")
+    "\tr.Lock()\n\tbefore := *r.Meta()\n\ti.options.Apply(r)\n\tr.Meta().Delete()\n\tr.Unlock()\n", "\tbefore := *r.Meta()\n\ti.options.Apply(r)\n\tr.Meta().Delete()\n",
+    "C02-R24|database.(*Interface).Delete", comment="reverts fix a9dfa07",
+    extra=[{"file": "database/interface.go", "old": "\ti.updateCache(r, false, true, 0)\n\n\tr.Lock()\n\tdefer r.Unlock()\n\treturn putChanged(db, r, before)", "new": "\ti.updateCache(r, false, true, 0)\n\n\treturn putChanged(db, r, before)"}])
 clone("C02-r24-delete-without-record-lock", "C14", "r15-delete-without-record-lock", "C14-R15|database.(*Interface).Delete", "reverts fix a9dfa07")
 
 mut("C14", "r16-refused-write-keeps-meta-change", "database/interface.go",
     "\terr := db.Put(r)\n\tif err != nil {\n\t\t*r.Meta() = before\n\t}\n\treturn err\n", "\treturn db.Put(r)\n",
     "C14-R16|database.(*Interface).Delete", comment="reverts fix 433069e")
+
+# ---- round 11: six repairs derived from remarks on the unmodified tree ----
+mut("C16", "r20-peek-allocates-requested-amount", "container/container.go",
+    "\tif held := c.Length(); n > held {\n\t\tn = held\n\t}\n", "",
+    "C16-R20|container.(*Container).Peek", comment="reverts fix 90ffd1f")
+clone("C16-r20-peek-allocates-requested-amount", "C10", "r12-peek-allocates-requested-amount", "C10-R12|container.(*Container).Peek", "reverts fix 90ffd1f")
+mut("C16", "r20-peek-lower-bound-only", "container/container.go",
+    "\tif held := c.Length(); n > held {\n\t\tn = held\n\t}\n", "\tif held := c.Length(); n < held/2 {\n\t\treturn nil\n\t}\n",
+    "C16-R20|container.(*Container).Peek", comment="a comparison that bounds the request from below only")
+mut("C19", "r23-existing-version-looked-up-raw", "updater/resource.go",
+    "\t\treturn err\n\t}\n\tversion = sv.String()\n", "\t\treturn err\n\t}\n\tnormalized := sv.String()\n",
+    "C19-R23|updater.(*Resource).AddVersion", comment="reverts fix c8dfdfb",
+    extra=[{"file": "updater/resource.go", "old": "\t\t\tVersionNumber: version,\n", "new": "\t\t\tVersionNumber: normalized,\n"}])
+mut("C19", "r24-resource-registered-before-version", "updater/registry.go",
+    "\t\tres = reg.newResource(identifier)\n\t}\n\tres.Index = index\n", "\t\tres = reg.newResource(identifier)\n\t\treg.resources[identifier] = res\n\t}\n\tres.Index = index\n",
+    "C19-R24|updater.(*ResourceRegistry).addResource", comment="reverts fix 4882ec4")
+mut("C19", "r25-cancelled-fetch-returns-nil", "updater/fetch.go",
+    "\t\t\t// module is shutting down: nothing was downloaded\n\t\t\treturn fmt.Errorf(\"download cancelled: %w\", ctx.Err())\n\t\tcase <-time.After(time.Duration(tries*tries) * time.Second):\n\t\t}\n\t}\n\n\t// check destination dir\n",
+    "\t\t\treturn nil // module is shutting down\n\t\tcase <-time.After(time.Duration(tries*tries) * time.Second):\n\t\t}\n\t}\n\n\t// check destination dir\n",
+    "C19-R25|updater.(*ResourceRegistry).fetchFile", comment="reverts fix a9600e3 (fetchFile)")
+mut("C19", "r25-cancelled-fetchdata-returns-nil", "updater/fetch.go",
+    "\t\t\treturn nil, \"\", fmt.Errorf(\"download cancelled: %w\", ctx.Err())\n", "\t\t\treturn nil, \"\", nil\n",
+    "C19-R25|updater.(*ResourceRegistry).fetchData", comment="reverts fix a9600e3 (fetchData)")
+mut("C13", "r20-query-locks-records-under-map-lock", "database/storage/hashmap/map.go",
+    "\thm.dbLock.RLock()\n\trecords := make(map[string]record.Record, len(hm.db))\n\tfor key, r := range hm.db {\n\t\trecords[key] = r\n\t}\n\thm.dbLock.RUnlock()\n",
+    "\thm.dbLock.RLock()\n\tdefer hm.dbLock.RUnlock()\n\trecords := hm.db\n",
+    "C13-R20|database/storage/hashmap.(*HashMap).queryExecutor", comment="reverts fix e005303")
+mut("C12", "r19-recovery-installed-after-authentication", "api/router.go",
+    "\t// Check authentication.\n\tapiRequest.AuthToken = authenticateRequest(lrw, r, handler, readMethod)\n\tif apiRequest.AuthToken == nil {\n\t\t// Authenticator already replied.\n\t\treturn nil\n\t}\n", "",
+    "C12-R19|api.(*mainHandler).handle", comment="reverts fix 4b7d0ca",
+    extra=[{"file": "api/router.go", "old": "\t// Format panics in the authenticator and the handler.\n", "new": "\t// Check authentication.\n\tapiRequest.AuthToken = authenticateRequest(lrw, r, handler, readMethod)\n\tif apiRequest.AuthToken == nil {\n\t\t// Authenticator already replied.\n\t\treturn nil\n\t}\n\n\t// Format panics in the authenticator and the handler.\n"}])
+
+def r11(prop, name, seed, expect):
+    from_patch(prop, name, seed, expect, comment="round-11 seed " + seed)
+r11("C01", "r16-ctrl-timeout-error-shadowed", "C01-k2", "C01-R16|modules.(*Module).runCtrlFnWithTimeout")
+r11("C02", "r25-putmany-close-on-one-exit-only", "C02-k1", "C02-R25|")
+r11("C03", "r15-runtime-query-flags-swapped", "C03-k2", "C03-R15|")
+r11("C03", "r16-expiry-snapshot-before-lock", "C03-k1", "C03-R16|database.(*Interface).SetAbsoluteExpiry")
+r11("C14", "r17-delete-snapshot-after-apply", "C14-k1", "C14-R17|database.(*Interface).Delete")
+r11("C06", "r20-reporting-channel-nil-ignored", "C06-k2", "C06-R20|modules.SetErrorReportingChannel")
+r11("C07", "r21-schedule-timer-cached", "C07-k1", "C07-R21|modules.waitUntilNextScheduledTask")
+r11("C09", "r17-mime-type-of-default-format", "C09-k2", "C09-R17|formats/dsd.RequestHTTPResponseFormat")
+r11("C12", "r20-key-hook-only-with-authenticator", "C12-k1", "C12-R20|api.start")
+r11("C15", "r13-start-high-priority-skips-counting", "C15-k2", "C15-R13|")
+r11("C16", "r21-getall-moves-offset-itself", "C16-k1", "C16-R21|")
+r11("C17", "r14-ensure-directory-lstat", "C17-k2", "C17-R14|utils.EnsureDirectory")
+r11("C18", "r10-ensure-directory-mkdirall", "C18-k2", "C18-R10|")
+r11("C19", "r26-failed-add-deletes-resource", "C19-k1", "C19-R26|")
+r11("C01", "r17-report-counted-twice-before-drain", "C01-k1", "C01-R17|modules.startModules")
+r11("C11", "r25-list-elements-escaped-one-by-one", "C11-k2", "C11-R25|database/query.(*stringSliceCondition).string")
+r11("C05", "r17-resolve-runs-worker-under-module-lock", "C05-k2", "C05-R17|modules.(*Module).Resolve")
+r11("C09", "r18-pack8-hands-out-shared-table", "C09-k1", "C09-R18|formats/varint.Pack8")
+r11("C13", "r21-parsekey-cuts-at-second-colon", "C13-k2", "C13-R21|database/record.ParseKey")
+r11("C19", "r27-scan-names-relative-to-scan-root", "C19-k2", "C19-R27|updater.(*ResourceRegistry).ScanStorage")
+
+mut("C02", "r26-delete-updates-cache-under-record-lock", "database/interface.go",
+    "\tr.Meta().Delete()\n\tr.Unlock()\n\n\t// Remove the record from the cache, it would be served from there otherwise.\n\t// The record may not be locked when updating the cache.\n\ti.updateCache(r, false, true, 0)\n\n\tr.Lock()\n\tdefer r.Unlock()\n\treturn putChanged(db, r, before)\n",
+    "\tr.Meta().Delete()\n\n\t// Remove the record from the cache, it would be served from there otherwise.\n\ti.updateCache(r, false, true, 0)\n\n\tdefer r.Unlock()\n\treturn putChanged(db, r, before)\n",
+    "C02-R26|database.(*Interface).Delete", comment="reverts fix 4694115")
+clone("C02-r26-delete-updates-cache-under-record-lock", "C14", "r18-delete-updates-cache-under-record-lock", "C14-R18|database.(*Interface).Delete", "reverts fix 4694115")
+
+# ---- repairs derived from the round-12 agents' remarks ----
+mut("C02", "r27-cache-serves-expired-record", "database/interface_cache.go",
+    "\t\t\tr.Lock()\n\t\t\tvalid := r.Meta().CheckValidity()\n\t\t\tr.Unlock()\n\t\t\tif !valid {\n\t\t\t\treturn nil\n\t\t\t}\n\t\t\treturn r\n", "\t\t\treturn r\n",
+    "C02-R27|database.(*Interface).checkCache", comment="reverts fix d6945c0")
+mut("C02", "r27-cache-validity-checked-but-ignored", "database/interface_cache.go",
+    "\t\t\tif !valid {\n\t\t\t\treturn nil\n\t\t\t}\n\t\t\treturn r\n", "\t\t\t_ = valid\n\t\t\treturn r\n",
+    "C02-R27|database.(*Interface).checkCache", comment="the validity is computed but does not decide")
+mut("C02", "r28-relative-expiry-set-after-last-update", "database/interface.go",
+    "\tr.Meta().SetRelativateExpiry(duration)\n\t// A relative expiry takes effect when the metadata is updated.\n\tr.Meta().Update()\n", "\tr.Meta().SetRelativateExpiry(duration)\n",
+    "C02-R28|database.(*Interface).SetRelativateExpiry", comment="reverts fix ac0d0d8 (setter)")
+mut("C02", "r28-option-ttl-set-after-last-update", "database/interface.go",
+    "\t\tr.Meta().SetRelativateExpiry(o.AlwaysSetRelativateExpiry)\n\t\t// A relative expiry takes effect when the metadata is updated.\n\t\tr.Meta().Update()\n", "\t\tr.Meta().SetRelativateExpiry(o.AlwaysSetRelativateExpiry)\n",
+    "C02-R28|database.(*Options).Apply", comment="reverts fix ac0d0d8 (option)")
+mut("C04", "r20-possible-value-compared-with-eq", "config/validate.go",
+    "\t\tif reflect.DeepEqual(compareAgainst, value) {\n", "\t\tif compareAgainst == value {\n",
+    "C04-R20|config.isAllowedPossibleValue", comment="reverts fix d53d19f (possible values)")
+mut("C04", "r20-migrated-value-compared-with-neq", "config/validate.go",
+    "\t\tif !reflect.DeepEqual(newValue, value) {\n", "\t\tif newValue != value {\n",
+    "C04-R20|config.migrateValue", comment="reverts fix d53d19f (migration)")
+mut("C04", "r21-saves-not-serialised", "config/persistence.go",
+    "\tsaveConfigLock.Lock()\n\tdefer saveConfigLock.Unlock()\n\n", "",
+    "C04-R21|config.SaveConfig", comment="reverts fix 78b437e")
+mut("C11", "r26-prefix-printed-raw", "database/query/query.go",
+    "\treturn fmt.Sprintf(\"query %s%s%s%s%s\", escapeString(q.dbName+\":\"+q.dbKeyPrefix), where, orderBy, limit, offset)", "\treturn fmt.Sprintf(\"query %s:%s%s%s%s%s\", q.dbName, q.dbKeyPrefix, where, orderBy, limit, offset)",
+    "C11-R26|database/query.(*Query).Print", comment="reverts fix 4f71328 (prefix)")
+mut("C11", "r26-orderby-printed-raw", "database/query/query.go",
+    "\t\torderBy = fmt.Sprintf(\" orderby %s\", escapeString(q.orderBy))", "\t\torderBy = fmt.Sprintf(\" orderby %s\", q.orderBy)",
+    "C11-R26|database/query.(*Query).Print", comment="reverts fix 4f71328 (orderby)")
